@@ -90,6 +90,22 @@ def runCommit (st : St) (tid : Nat) : St × String :=
   let out := (match o with | .ok => "ok" | .err => "err" | .conflict => "conflict") ++ " | " ++ " ; ".intercalate (r.trace.reverse.map showEv)
   ({ st with s := r.s, fresh := r.fresh, fault := none, last := some r }, out)
 
+/-- the state right before the `occ`-th call of class `cls` of the commit (none: at the end of phase 1) -/
+def prefixState (st : St) (tid : Nat) (stop : Option (Cls × Nat)) : State :=
+  let created := st.ws.any (·.created)
+  let s0 := if created then { st.s with tlog := fun k => if k = tid then true else st.s.tlog k } else st.s
+  let r0 : Run := { s := s0, tid := tid, fault := none, fresh := st.fresh, stopAt := stop,
+                    cs := if created then .createStore else .unknown }
+  match phase1 { stores := st.ws } st.maxRetry r0 with
+  | .error r1 => r1.s
+  | .ok (_, r1) =>
+    match stop with
+    | none => r1.s
+    | some _ =>
+      match phase2 { stores := st.ws } r1 with
+      | .error r2 => r2.s
+      | .ok (_, r2) => r2.s
+
 def step (st : St) (ws : List String) : St × String :=
   match ws with
   | ["h", lid, a, b, act, ver, wip, del] =>
@@ -135,6 +151,12 @@ def step (st : St) (ws : List String) : St × String :=
     match tid.toNat? with
     | some tid => runCommit st tid
     | none => (st, "bad-op")
+  | ["at", "gap", ids, stores] =>
+    (st, showState (prefixState st 1 none) (natList ids) (natList stores) [1])
+  | ["at", _phase, cls, occ, ids, stores] =>
+    match occ.toNat?, clsOfName cls with
+    | some occ, some c => (st, showState (prefixState st 1 (some (c, occ))) (natList ids) (natList stores) [1])
+    | _, _ => (st, "bad-op")
   | ["state", ids, stores, tids] =>
     (st, showState st.s (natList ids) (natList stores) (natList tids))
   | _ => (st, "bad-op")
